@@ -210,32 +210,26 @@ def run(ctx):
         ctx.check("R-ALL-EXC-CONSIDERED", "dispatch inspects the whole recorded list", rpr, bool(whole),
                   "no read of the recorded-exception list feeds the dispatch", construct=f"{Q}._run_prepared_result::reads")
 
-    # ------------------------------------------------------------------ re-raise arm
-    cfg = cfg_of(ctx, rpr)
-    live = live_nodes(cfg)
-    loops = [n for n in walk_shallow(rpr, include_self=False) if isinstance(n, ast.For) and dotted(n.iter) == "self.handlers"]
-    ok = False
-    msg = "the dispatch is not a for loop over self.handlers with an else arm"
-    if len(loops) == 1 and loops[0].orelse:
-        lp = loops[0]
-        evar = None
-        calls = [c for s in lp.orelse for c in walk_shallow(s) if isinstance(c, ast.Call) and dotted(c.func) == "self.last_resort"]
-        raises = [s for s in lp.orelse if isinstance(s, ast.Raise)]
-        if len(calls) == 1 and len(raises) == 1 and isinstance(raises[0].exc, ast.Name):
-            evar = raises[0].exc.id
-            ok = len(calls[0].args) == 3 and dotted(calls[0].args[2]) == evar and lp.orelse.index(raises[0]) > 0
-            msg = "the no-match arm must call self.last_resort(case, result, e) and then `raise e` with the same e"
-        # first-match: isinstance test with break
-        tests = [n for n in lp.body if isinstance(n, ast.If)]
-        fm = False
-        if len(tests) == 1 and isinstance(tests[0].test, ast.Call) and dotted(tests[0].test.func) == "isinstance":
-            body = tests[0].body
-            fm = any(isinstance(b, ast.Break) for b in body) and any(isinstance(c, ast.Call) for b in body for c in walk_shallow(b)) and not tests[0].orelse
-            if fm and evar:
-                fm = dotted(tests[0].test.args[0]) == evar
-        ctx.check("R-RERAISE", "dispatch leaves the handler loop at the first matching class", lp, fm,
-                  "the handler loop does not `break` after the first isinstance match on the dispatched exception", construct=f"{Q}._run_prepared_result::first-match")
-    ctx.check("R-RERAISE", "no-match arm: last_resort then raise the same exception", rpr, ok, msg, construct=f"{Q}._run_prepared_result::no-match-arm")
+    # ------------------------------------------------------------------ re-raise arm / one report per exception
+    # decided on the abstract run with a symbolic three-entry handler table (see runmodel.DispatchDomain):
+    # whatever shape the dispatch has, every relation between the exception and the table ends with exactly
+    # one report, and with no matching entry the report goes to last_resort and the exception is re-raised
+    for m, x, first, exits in runmodel.dispatch_semantics(ctx, rt):
+        rel = "".join("1" if b_ else "0" for b_ in m)
+        got = [(a_, w_, k_) for a_, w_, k_, _ in exits]
+        bad = next((r_ for a_, w_, k_, r_ in exits if len(a_) != 1), None)
+        if first is None:
+            ok = got == [(("last_resort",), (True,), "reraise")]
+            ctx.check("R-RERAISE", "no entry of the handler table matches: last_resort(case, result, e), then e is re-raised", rpr, ok,
+                      "an exception no handler claims must be reported through last_resort and re-raised (inside the bracket); the dispatch does: " +
+                      "; ".join(f"invokes {list(a_)} then {k_}" for a_, w_, k_ in got),
+                      path=runmodel.fmt_log(exits[0][3].state) if exits else None, construct=f"{Q}._run_prepared_result::no-match-arm")
+        else:
+            ok = bool(got) and all(len(a_) == 1 and k_ == "return" for a_, w_, k_ in got)
+            ctx.check("R-RERAISE", f"isinstance(e, C0..C2)={rel}" + (f", type(e) is C{x}" if x is not None else "") + ": exactly one handler reports and the run returns", rpr, ok,
+                      "a matching exception is not reported by exactly one handler: " + "; ".join(f"invokes {list(a_)} then {k_}" for a_, w_, k_ in got),
+                      path=runmodel.fmt_log(bad.state) if bad is not None else None, construct=f"{Q}._run_prepared_result::one-report m={rel} exact={x}")
+    ctx.floor("R-RERAISE", 20, "table relations")
 
     # ------------------------------------------------------------------ run-level bracket / adaptation / reset
     run_f = own_method(ctx, RUNTEST, "RunTest", "run")
